@@ -12,8 +12,8 @@ from .sig import outcome, sig_exc
 
 class World:
     def __init__(self, handle_descs, share=None):
-        if share is not None:   # another client of the same retorts (a second thread)
-            self.hdesc, self.handles = share.hdesc, share.handles
+        if share is not None:   # another client of the same retorts (a second thread); retorts it derives are its own
+            self.hdesc, self.handles = list(share.hdesc), list(share.handles)
         else:
             self.hdesc = [dict(d) for d in handle_descs]
             self.handles = [pools.build_base(d) for d in handle_descs]
@@ -53,7 +53,10 @@ class World:
             return out, res, arg
         if kind == "dump":
             arg = pools.obj(op["o"])
-            out, res = outcome(self.handles[op["h"]].dump, arg, pools.TYPES[op["t"]])
+            if op.get("infer"):
+                out, res = outcome(self.handles[op["h"]].dump, arg)      # type inferred from the object
+            else:
+                out, res = outcome(self.handles[op["h"]].dump, arg, pools.TYPES[op["t"]])
             return out, res, arg
         if kind == "get_loader":
             out, fn = outcome(self.handles[op["h"]].get_loader, pools.TYPES[op["t"]])
@@ -156,6 +159,8 @@ def compute_ref(desc):
     if kind == "load":
         return outcome(retort.load, pools.datum(desc["d"]), pools.TYPES[desc["t"]])[0]
     if kind == "dump":
+        if desc.get("infer"):
+            return outcome(retort.dump, pools.obj(desc["o"]))[0]
         return outcome(retort.dump, pools.obj(desc["o"]), pools.TYPES[desc["t"]])[0]
     if kind == "get_loader":
         out, fn = outcome(retort.get_loader, pools.TYPES[desc["t"]])
